@@ -61,6 +61,9 @@ func TestVerif_C10(t *testing.T) {
 	if scratch == "" {
 		scratch = os.TempDir()
 	}
+	if p.Thorough {
+		c10VLimitKiB = 6 * 1024 * 1024
+	}
 	tb, err := c10Observe()
 	if err != nil {
 		t.Fatalf("C10: %v", err)
@@ -122,9 +125,12 @@ func TestVerif_C10(t *testing.T) {
 	}
 
 	sup := c10NewSup(scratch, sink, tb)
+	sup.HardStop = p.Deadline.Add(45 * time.Second)
 	expired := false
 	submit := func(m *c10Msg) bool {
-		if expired || sup.fatal != "" {
+		if expired || sup.fatal != "" || sup.Aborted {
+			expired = true
+			res.Exhaustive = false
 			return false
 		}
 		if sup.Cases%256 == 0 && p.Expired() {
@@ -394,6 +400,10 @@ seqs:
 	sup.stop()
 	if sup.fatal != "" {
 		t.Fatalf("C10 engine: %s", sup.fatal)
+	}
+	if sup.Aborted {
+		res.Exhaustive = false
+		res.Note("the run was stopped 45 s past its time budget with cases still queued (machine load); nothing is concluded from them")
 	}
 	res.Evaluations += sup.Steps
 	res.Count("worker_cases", sup.Cases)
